@@ -48,8 +48,13 @@ pub enum Damage {
     /// level 0 root, 1 prefix dir, 2 key dir; kind: 0 junk file, 1 junk dir, 2 short base64 name dir/file, 3 well-formed-looking name
     Junk { level: u32, kind: u32, pick: u64 },
     /// 0 junk name, 1 other length in the name, 2 other checksum in the name, 3 same length+checksum but shifted range,
-    /// 4 same length+checksum but another range width, 5 moved unchanged under another key's directory
+    /// 4 same length+checksum but another range width, 5 moved unchanged under another key's directory,
+    /// 6 same length+checksum but a narrower range that starts later, 7 rewritten with two header offsets swapped
+    /// under a name whose length and checksum match the new bytes
     Rename { pick: u64, kind: u32 },
+    /// a plain file that is none of the cache's business, left in the root (level 0) or in a prefix directory
+    /// (level 1) — the scan is documented to skip it. Not damage: the accounting clauses stay in force.
+    Stray { level: u32, pick: u64 },
 }
 
 #[derive(Clone, Debug, Serialize, Deserialize, PartialEq)]
@@ -336,9 +341,14 @@ fn gen(seed: u64, run: u64, focus: &str, tier: Tier) -> Plan {
                     2 => Damage::Extend { pick: rng.next_u64(), n: rng.range(1, 40) as u32 },
                     3 => Damage::Delete { pick: rng.next_u64() },
                     4 | 5 => Damage::Junk { level: rng.below(3) as u32, kind: rng.below(4) as u32, pick: rng.next_u64() },
-                    _ => Damage::Rename { pick: rng.next_u64(), kind: rng.below(6) as u32 },
+                    _ => Damage::Rename { pick: rng.next_u64(), kind: rng.below(8) as u32 },
                 };
                 damage_after.push(d);
+            }
+        }
+        if pi + 1 < n_phases && rng.chance(1, 4) {
+            for _ in 0..rng.range(1, 3) {
+                damage_after.push(Damage::Stray { level: rng.below(2) as u32, pick: rng.next_u64() });
             }
         }
         let capacity_pct = if focus == "C12" && pi > 0 && rng.chance(1, 4) { *rng.pick(&[10u32, 30, 50, 200]) } else { 100 };
@@ -369,6 +379,29 @@ struct Shared {
 
 fn bump(sh: &Mutex<Shared>, k: &str, n: u64) {
     *sh.lock().unwrap().counters.entry(k.to_string()).or_insert(0) += n;
+}
+
+/// The file still exists, the shipped code has to refuse it (its header does not describe exactly the chunks its name
+/// claims, or its offsets are not increasing), and serving chunks [a, b) from it gives exactly `data`.
+fn refusable_file_serves(pth: &Path, a: u32, b: u32, data: &[u8]) -> bool {
+    let Some((pa, pb, _, _)) = pth.file_name().and_then(|n| parse_item_name(&n.to_string_lossy())) else { return false };
+    let Ok(bytes) = std::fs::read(pth) else { return false };
+    if bytes.len() < 4 || a < pa || b > pb || b <= a {
+        return false;
+    }
+    let n = u32::from_le_bytes(bytes[0..4].try_into().unwrap()) as usize;
+    let hdr = 4 * (n + 1);
+    if bytes.len() < hdr {
+        return false;
+    }
+    let offs: Vec<u32> = (0..n).map(|i| u32::from_le_bytes(bytes[4 + 4 * i..8 + 4 * i].try_into().unwrap())).collect();
+    let refusable = n != (pb - pa + 1) as usize || offs.first() != Some(&0) || offs.windows(2).any(|w| w[0] >= w[1]);
+    let (i0, i1) = ((a - pa) as usize, (b - pa) as usize);
+    if !refusable || i1 >= n {
+        return false;
+    }
+    let (s, e) = (offs[i0] as usize, offs[i1] as usize);
+    s <= e && hdr + e <= bytes.len() && &bytes[hdr + s..hdr + e] == data
 }
 
 fn check_hit(
@@ -409,7 +442,35 @@ fn check_hit(
             }
         }
     }
-    let _ = (cache, root, sh.lock().unwrap().provenance.len());
+    // a hit served from a file produced by one of the damage kinds that the shipped code always refuses (header /
+    // name mismatch, unordered offsets) is its own site, never one of the recorded findings
+    {
+        let kd = key_dir_name(&vk.key);
+        let s = sh.lock().unwrap();
+        let covers = |pth: &PathBuf| {
+            pth.parent().and_then(|d| d.file_name()).map(|n| n.to_string_lossy() == kd.as_str()).unwrap_or(false)
+                && pth.file_name().and_then(|n| parse_item_name(&n.to_string_lossy())).map(|(pa, pb, _, _)| pa <= a && b <= pb).unwrap_or(false)
+        };
+        // (only when no file of the kinds behind the recorded findings can explain the hit)
+        let explained = s.provenance.iter().any(|(pth, label)| ["renamed-shifted-range-same-len-crc", "moved-to-other-key-dir"].contains(&label.as_str()) && covers(pth));
+        let mut via: Vec<&String> = s
+            .provenance
+            .iter()
+            .filter(|(pth, label)| {
+                !explained
+                    && ["renamed-narrower-shifted-range-same-len-crc", "rewritten-with-unordered-offsets"].contains(&label.as_str())
+                    && refusable_file_serves(pth, a, b, got.data.as_ref())
+                    && pth.parent().and_then(|d| d.file_name()).map(|n| n.to_string_lossy() == kd.as_str()).unwrap_or(false)
+                    && pth.file_name().and_then(|n| parse_item_name(&n.to_string_lossy())).map(|(pa, pb, _, _)| pa <= a && b <= pb).unwrap_or(false)
+            })
+            .map(|(_, l)| l)
+            .collect();
+        via.sort();
+        if let Some(l) = via.first() {
+            site = format!("{site}:via-{l}");
+        }
+    }
+    let _ = (cache, root);
     let clause = if damaged { "C12.b" } else { "C12.a" };
     let what = if got.data.as_ref() != &data[..] {
         "data"
@@ -521,6 +582,20 @@ fn apply_damage(d: &Damage, root: &Path, vks: &[VKey], sh: &Mutex<Shared>) {
                 bump(sh, "fault:junk_file", 1);
             }
         },
+        Damage::Stray { level, pick } => {
+            let dir = match level {
+                0 => None,
+                _ => pickf(*pick).and_then(|f| f.0.parent().and_then(|p| p.parent()).map(|p| p.to_path_buf())),
+            }
+            .unwrap_or_else(|| root.to_path_buf());
+            let _ = std::fs::create_dir_all(&dir);
+            let name = ["README.txt", ".DS_Store", "0", "zzzz.lock", "Thumbs.db"][(*pick >> 8) as usize % 5];
+            let p = dir.join(name);
+            if !p.exists() {
+                let _ = std::fs::write(&p, vec![0x33u8; (*pick >> 16) as usize % 40]);
+                bump(sh, "fault:stray_plain_file_beside_the_cache_directories", 1);
+            }
+        },
         Damage::Rename { pick, kind } => {
             if let Some((p, kd, name, _)) = pickf(*pick) {
                 let dir = p.parent().unwrap().to_path_buf();
@@ -536,6 +611,29 @@ fn apply_damage(d: &Damage, root: &Path, vks: &[VKey], sh: &Mutex<Shared>) {
                     (4, Some((a, b, l, c))) => {
                         let nb = if b - a > 1 && pick % 2 == 0 { b - 1 } else { b + 1 };
                         Some((dir.join(item_name(a, nb, l, c)), "renamed-other-width-same-len-crc"))
+                    },
+                    (6, Some((a, b, l, c))) if b - a > 1 => {
+                        // a narrower range that starts later: the header describes more chunks than the name claims
+                        let nb = if b - a > 2 && pick % 2 == 0 { b - 1 } else { b };
+                        Some((dir.join(item_name(a + 1, nb, l, c)), "renamed-narrower-shifted-range-same-len-crc"))
+                    },
+                    (7, Some((a, b, _l, _c))) => {
+                        // rewritten so that name, length and checksum agree with the bytes, but the offsets in the
+                        // header are out of order (two neighbours swapped)
+                        match std::fs::read(&p) {
+                            Ok(mut bytes) if bytes.len() >= 16 && u32::from_le_bytes(bytes[0..4].try_into().unwrap()) >= 3 => {
+                                let (x, y) = (bytes[8..12].to_vec(), bytes[12..16].to_vec());
+                                bytes[8..12].copy_from_slice(&y);
+                                bytes[12..16].copy_from_slice(&x);
+                                let t = dir.join(item_name(a, b, bytes.len() as u64, crate::engines::crash::crc32(&bytes)));
+                                if std::fs::write(&p, &bytes).is_ok() {
+                                    Some((t, "rewritten-with-unordered-offsets"))
+                                } else {
+                                    None
+                                }
+                            },
+                            _ => None,
+                        }
                     },
                     (5, Some(_)) => {
                         // move unchanged under another key's directory
@@ -771,7 +869,9 @@ fn run_plan(p: &Plan, focus: &str, rep: &mut RunReport) {
         // ---- damage while closed
         for d in &phase.damage_after {
             apply_damage(d, &root, &vks, &sh);
-            damaged = true;
+            if !matches!(d, Damage::Stray { .. }) {
+                damaged = true;
+            }
         }
     }
     let s = sh.lock().unwrap();
